@@ -141,7 +141,8 @@ enum Pool {
     Default,
     /// `<n>`: in-process `ThreadPoolBuilder::num_threads(n)…install(..)` — the caller itself is one of the n workers
     Installed(usize),
-    /// `g<n>`: a child `vh exec` with `RAYON_NUM_THREADS=n` — the global pool has n workers, the caller is outside it
+    /// `g<n>`: a child `vh exec` with `RAYON_NUM_THREADS=n` — the global pool has n workers, the caller is outside it —
+    /// and CPU affinity restricted to n CPUs (so `available_parallelism()` = n: pariter's `parallel_map` stages get n threads)
     Global(usize),
 }
 
@@ -178,21 +179,36 @@ fn in_child(threads: usize, secs: u64, line: &str) -> Result<String, String> {
     use std::process::{Command, Stdio};
     // the running image itself (survives a rebuild that replaces the file on disk)
     let exe = if std::path::Path::new("/proc/self/exe").exists() {
-        PathBuf::from("/proc/self/exe")
+        PathBuf::from(format!("/proc/{}/exe", std::process::id()))
     } else {
         std::env::current_exe().map_err(|e| format!("child-no-exe:{:?}", e.kind()))?
     };
+    // restrict the child to `threads` CPUs as well (when `taskset` exists and that many CPUs are there): the stages
+    // sized by `std::thread::available_parallelism()` (pariter's `parallel_map` in the packer pipeline and the archiver)
+    // then run with `threads` workers too
+    let ncpu = std::thread::available_parallelism().map_or(1, std::num::NonZero::get);
+    let cpus = (threads <= ncpu).then(|| {
+        let off = line.len() % ncpu;
+        (0..threads).map(|i| ((off + i) % ncpu).to_string()).collect::<Vec<_>>().join(",")
+    });
+    let spawn = |affinity: Option<&String>| {
+        let mut cmd = match affinity {
+            Some(list) => {
+                let mut c = Command::new("taskset");
+                _ = c.arg("-c").arg(list).arg(&exe);
+                c
+            }
+            None => Command::new(&exe),
+        };
+        cmd.arg("exec").env("RAYON_NUM_THREADS", threads.to_string()).stdin(Stdio::piped()).stdout(Stdio::piped()).stderr(Stdio::null()).spawn()
+    };
     let mut tries = 0;
+    let mut affinity = cpus.as_ref();
     let mut child = loop {
-        match Command::new(&exe)
-            .arg("exec")
-            .env("RAYON_NUM_THREADS", threads.to_string())
-            .stdin(Stdio::piped())
-            .stdout(Stdio::piped())
-            .stderr(Stdio::null())
-            .spawn()
-        {
+        match spawn(affinity) {
             Ok(c) => break c,
+            // no `taskset`: run without the CPU restriction
+            Err(e) if affinity.is_some() && e.kind() == std::io::ErrorKind::NotFound => affinity = None,
             // EAGAIN under load: wait and retry
             Err(_) if tries < 20 => {
                 tries += 1;
